@@ -15,12 +15,14 @@ VARIABLES tid, l, verdict, ts, ti, drifted
 
 Fails(s, e) ==
   CASE e.k = "store" -> StoreFails(e)
+    [] e.k = "arr" -> ArrFails(e)
     [] e.k = "dt" -> DtFails(e)
     [] e.k = "real" -> RealFails(e)
     [] OTHER -> {"Trace.KnownVectorKind"}
 
 Drift(i, e) ==
   << CASE e.k = "store" -> StoreDrift(e)
+       [] e.k = "arr" -> ArrDrift(e)
        [] e.k = "dt" -> DtDrift(e)
        [] e.k = "real" -> RealDrift(e)
        [] OTHER -> {},
